@@ -4,6 +4,6 @@ out=$1; shift
 for item in "$@"; do
   sd=${item%%:*}; props=${item#*:}
   echo "#### $sd" >> $out
-  /verif/tools/try_seed.sh /tmp/seedout/$sd/patch.diff $(echo $props | tr , ' ') 2>&1 | cut -c1-200 >> $out
+  /verif/tools/try_seed.sh ${SEEDOUT:-/tmp/seedout}/$sd/patch.diff $(echo $props | tr , ' ') 2>&1 | cut -c1-200 >> $out
 done
 echo ALLDONE >> $out
